@@ -106,6 +106,7 @@ type Term struct {
 	p1   int      // extract hi / ext amount / int2bv width
 	p2   int      // extract lo
 	hasInt bool   // some subterm has sort Int
+	hasMix bool   // some subterm converts between Int and BitVec (bv2nat / int2bv)
 }
 
 // UF describes an uninterpreted function symbol.
@@ -149,9 +150,13 @@ func (tt *TermTable) intern(t *Term) *Term {
 	}
 	t.id = len(tt.all)
 	t.hasInt = t.sort.K == SInt
+	t.hasMix = t.op == OBv2Nat || t.op == OInt2Bv
 	for _, a := range t.args {
 		if a.hasInt {
 			t.hasInt = true
+		}
+		if a.hasMix {
+			t.hasMix = true
 		}
 	}
 	tt.all = append(tt.all, t)
